@@ -170,7 +170,7 @@ def run_one(choices, params):
 
 
 def prepare(tier, seed):
-    return 12000 if tier == "quick" else 600000
+    return 30000 if tier == "quick" else 600000
 
 
 def params_for(i, tier, seed):
